@@ -12,8 +12,10 @@ import (
 	"errors"
 	"fmt"
 	"net"
+	"runtime"
 	"sort"
 	"strings"
+	"sync"
 	"testing"
 	"time"
 
@@ -96,6 +98,12 @@ type op struct {
 	P     *mpath  `json:"p,omitempty"`
 	Depth uint    `json:"depth,omitempty"`
 	D     int64   `json:"d,omitempty"`
+	// overlap: publish (K, V, TTL, EOL, Seq) is parked inside its datastore Put while
+	// publish (K, V2, TTL2, EOL2, Seq2) is started
+	V2   *mpath  `json:"v2,omitempty"`
+	TTL2 int64   `json:"ttl2,omitempty"`
+	EOL2 int64   `json:"eol2,omitempty"`
+	Seq2 *uint64 `json:"seq2,omitempty"`
 }
 
 const hour = int64(time.Hour)
@@ -112,6 +120,15 @@ func (o op) coq() string {
 		return fmt.Sprintf("(OResolve %s %d)", o.P.coq(), o.Depth)
 	case "sleep":
 		return fmt.Sprintf("(OSleep %s)", vh.Z(o.D))
+	case "overlap":
+		sq := func(x *uint64) string {
+			if x == nil {
+				return "None"
+			}
+			return "(Some " + vh.ZU(*x) + ")"
+		}
+		return fmt.Sprintf("(OOverlap %d%%N %s %s %s %s %s %s %s %s)", o.K, o.V.coq(), vh.Z(o.TTL), vh.Z(o.EOL*hour), sq(o.Seq),
+			o.V2.coq(), vh.Z(o.TTL2), vh.Z(o.EOL2*hour), sq(o.Seq2))
 	}
 	return "ORestart"
 }
@@ -300,9 +317,75 @@ func (w *world) parse(s string) mpath {
 
 // ---------- running one history on the real name system ----------
 
+// gateDS is the publisher's datastore.  When armed, the next IPNS-record Puts stop at
+// a gate (announce arrival, wait for release) so that the harness decides the schedule
+// of two overlapping Publish calls.  It also remembers the records handed to Put.
+type gateDS struct {
+	ds.Datastore
+	mu      sync.Mutex
+	gates   []*gate // gates still to be taken, in order of arrival
+	written [][]byte
+}
+type gate struct {
+	arrived chan struct{}
+	release chan struct{}
+}
+
+func newGate() *gate { return &gate{arrived: make(chan struct{}), release: make(chan struct{})} }
+
+func (d *gateDS) Put(ctx context.Context, key ds.Key, value []byte) error {
+	if strings.HasPrefix(key.String(), "/ipns/") {
+		d.mu.Lock()
+		d.written = append(d.written, value)
+		var g *gate
+		if len(d.gates) > 0 {
+			g, d.gates = d.gates[0], d.gates[1:]
+		}
+		d.mu.Unlock()
+		if g != nil {
+			close(g.arrived)
+			<-g.release
+		}
+	}
+	return d.Datastore.Put(ctx, key, value)
+}
+
+func (d *gateDS) arm(gs ...*gate) {
+	d.mu.Lock()
+	d.gates, d.written = gs, nil
+	d.mu.Unlock()
+}
+func (d *gateDS) disarm() [][]byte {
+	d.mu.Lock()
+	defer d.mu.Unlock()
+	d.gates = nil
+	return d.written
+}
+
+// publishB is the second of two overlapping publishes; its name marks the goroutine.
+//
+//go:noinline
+func publishB(f func() error) error { return f() }
+
+// blockedOnPublisherMutex reports whether the goroutine running publishB is waiting for
+// a sync.Mutex inside IPNSPublisher.updateRecord.
+func blockedOnPublisherMutex() bool {
+	buf := make([]byte, 1<<20)
+	buf = buf[:runtime.Stack(buf, true)]
+	for _, g := range strings.Split(string(buf), "\n\n") {
+		if !strings.Contains(g, "c29.publishB") {
+			continue
+		}
+		head, _, _ := strings.Cut(g, "\n")
+		return (strings.Contains(head, "sync.Mutex.Lock") || strings.Contains(head, "semacquire")) &&
+			strings.Contains(g, "updateRecord")
+	}
+	return false
+}
+
 type system struct {
 	ns  namesys.NameSystem
-	pds ds.Datastore
+	pds *gateDS
 }
 
 func classifyPub(err error) string {
@@ -347,7 +430,7 @@ func runCase(t *testing.T, w *world, cfg config, ops []op) ([]op, []string) {
 		return []string{"v=spf1 -all", "dnslink=" + w.str(e.V)}, time.Duration(e.TTL), nil
 	}
 	newSystem := func() system {
-		pds := dssync.MutexWrap(ds.NewMapDatastore())
+		pds := &gateDS{Datastore: dssync.MutexWrap(ds.NewMapDatastore())}
 		opts := []namesys.Option{namesys.WithDatastore(pds), namesys.WithDNSResolverWithTTL(lookup)}
 		if cfg.Size > 0 {
 			opts = append(opts, namesys.WithCache(cfg.Size))
@@ -363,6 +446,43 @@ func runCase(t *testing.T, w *world, cfg config, ops []op) ([]op, []string) {
 	}
 	sys := newSystem()
 	baseEOL := time.Now().Add(72 * time.Hour)
+
+	pubOpts := func(eol, ttl int64, seq *uint64) []namesys.PublishOption {
+		po := []namesys.PublishOption{
+			namesys.PublishWithEOL(baseEOL.Add(time.Duration(eol) * time.Hour)),
+			namesys.PublishWithTTL(time.Duration(ttl)),
+		}
+		if seq != nil {
+			po = append(po, namesys.PublishWithSequence(*seq))
+		}
+		return po
+	}
+	recView := func(raw []byte, withTTL bool) string {
+		rec, uerr := ipns.UnmarshalRecord(raw)
+		if uerr != nil {
+			t.Fatal(uerr)
+		}
+		sq, _ := rec.Sequence()
+		v, verr := rec.Value()
+		if verr != nil {
+			t.Fatal(verr)
+		}
+		if withTTL {
+			ttl, _ := rec.TTL()
+			return fmt.Sprintf("(%s, %s, %s)", vh.ZU(sq), w.parse(v.String()).coq(), vh.Z(int64(ttl)))
+		}
+		return fmt.Sprintf("(%s, %s)", vh.ZU(sq), w.parse(v.String()).coq())
+	}
+	storedViews := func(k int) (string, string) {
+		rt, dsv := "None", "None"
+		if raw, gerr := router.GetValue(ctx, string(w.names[k].RoutingKey())); gerr == nil {
+			rt = "(Some " + recView(raw, true) + ")"
+		}
+		if raw, gerr := sys.pds.Datastore.Get(ctx, namesys.IpnsDsKey(w.names[k])); gerr == nil {
+			dsv = "(Some " + recView(raw, false) + ")"
+		}
+		return rt, dsv
+	}
 
 	var done []op
 	var obs []string
@@ -429,6 +549,79 @@ func runCase(t *testing.T, w *world, cfg config, ops []op) ([]op, []string) {
 				obs = append(obs, "BUnit")
 				sys = newSystem()
 			}
+		case "overlap":
+			// Publish A is parked inside its datastore Put; Publish B is started.  We wait —
+			// without relying on time — until B either waits for the publisher's mutex
+			// (the code as it should be) or arrives at its own datastore Put (B got past
+			// the mutex while A holds the record), or finishes without writing.
+			gA, gB := newGate(), newGate()
+			sys.pds.arm(gA, gB)
+			var errA, errB error
+			doneA, doneB := make(chan struct{}), make(chan struct{})
+			cur := sys
+			go func() {
+				defer close(doneA)
+				errA = cur.ns.Publish(ctx, w.keys[o.K], w.real(t, *o.V), pubOpts(o.EOL, o.TTL, o.Seq)...)
+			}()
+			inside := false
+			select {
+			case <-doneA: // A was refused before writing anything: nothing to overlap with
+				sys.pds.arm()
+				errB = cur.ns.Publish(ctx, w.keys[o.K], w.real(t, *o.V2), pubOpts(o.EOL2, o.TTL2, o.Seq2)...)
+				close(doneB)
+			case <-gA.arrived:
+				go func() {
+					defer close(doneB)
+					errB = publishB(func() error {
+						return cur.ns.Publish(ctx, w.keys[o.K], w.real(t, *o.V2), pubOpts(o.EOL2, o.TTL2, o.Seq2)...)
+					})
+				}()
+				deadline := time.Now().Add(60 * time.Second)
+				state := ""
+				for state == "" {
+					select {
+					case <-gB.arrived:
+						state = "inside"
+					case <-doneB:
+						state = "done"
+					default:
+						if blockedOnPublisherMutex() {
+							state = "blocked"
+						} else if time.Now().After(deadline) {
+							t.Fatalf("overlapping publishes: the second publish neither blocks nor proceeds")
+						} else {
+							time.Sleep(200 * time.Microsecond)
+						}
+					}
+				}
+				switch state {
+				case "blocked": // A first, then B
+					close(gA.release)
+					<-doneA
+					select {
+					case <-gB.arrived:
+						close(gB.release)
+					case <-doneB:
+					}
+					<-doneB
+				case "inside": // B overtook A: let B finish, then A
+					inside = true
+					close(gB.release)
+					<-doneB
+					close(gA.release)
+					<-doneA
+				case "done": // B finished while A is parked (it was refused, or it never stopped at a Put)
+					inside = true
+					close(gA.release)
+					<-doneA
+				}
+			}
+			var writes []string
+			for _, raw := range sys.pds.disarm() {
+				writes = append(writes, recView(raw, false))
+			}
+			rt, dsv := storedViews(o.K)
+			obs = append(obs, fmt.Sprintf("(BOverlap %s %s %s %s %s %s)", classifyPub(errA), classifyPub(errB), rt, dsv, vh.List(writes), vh.Bool(inside)))
 		case "sleep":
 			// real time must advance at least as far as the model clock
 			time.Sleep(time.Duration(o.D) + 3*time.Millisecond)
@@ -670,7 +863,29 @@ func (g *gen) history(regime string) (config, []op) {
 			}
 			ops = append(ops, op{Kind: "resolve", P: &p, Depth: g.depth(regime)})
 		case x < 16:
-			ops = append(ops, op{Kind: "restart"})
+			if g.coin(0.5) {
+				ops = append(ops, op{Kind: "restart"})
+				break
+			}
+			// two overlapping publishes of one key (different values mostly; sometimes explicit sequences)
+			k := g.n(2)
+			vA, vB := g.immPath(), g.immPath()
+			if old, ok := lastVal[k]; ok && g.coin(0.2) {
+				vA = old
+			}
+			if g.coin(0.1) {
+				vB = vA
+			}
+			lastVal[k] = vB
+			eol += 4
+			o := op{Kind: "overlap", K: k, V: &vA, TTL: g.ttl(cache), EOL: eol - 2, V2: &vB, TTL2: g.ttl(cache), EOL2: eol}
+			if g.coin(0.2) {
+				o.Seq = new(uint64)
+			}
+			if g.coin(0.3) {
+				o.Seq2 = new(uint64)
+			}
+			ops = append(ops, o)
 		default:
 			// handled below (explicit sequence numbers need the shadow: done in fixSeqs)
 			k := g.n(2)
@@ -820,6 +1035,26 @@ func (g *gen) finalize(cfg config, ops []op, short bool) []op {
 					sh.val[o.K] = *o.V
 				}
 			}
+		case "overlap":
+			step := func(v mpath, seq *uint64) *uint64 {
+				cur, has := sh.seq[o.K], sh.has[o.K]
+				if seq != nil {
+					seq = g.seqChoice(sh, o.K)
+					if !has && *seq > 0 || has && *seq > cur {
+						sh.seq[o.K], sh.has[o.K], sh.val[o.K] = *seq, true, v
+					}
+					return seq
+				}
+				switch {
+				case !has:
+					sh.seq[o.K], sh.has[o.K], sh.val[o.K] = 0, true, v
+				case g.w.str(sh.val[o.K]) != g.w.str(v) && cur != ^uint64(0):
+					sh.seq[o.K], sh.val[o.K] = cur+1, v
+				}
+				return nil
+			}
+			o.Seq = step(*o.V, o.Seq)
+			o.Seq2 = step(*o.V2, o.Seq2)
 		case "resolve":
 			if o.Depth == 0 && (cfg.Size > 0 || !g.terminates(cfg, sh, *o.P)) {
 				o.Depth = uint(1 + g.n(7))
@@ -900,6 +1135,20 @@ func corpus() []struct {
 			{Kind: "restart"},
 			{Kind: "publish", K: 2, V: &B, TTL: h, EOL: 3},
 		}},
+		// overlapping publishes: serialised by the publisher's mutex
+		{"overlapping publishes of different values", config{Size: 0}, []op{
+			{Kind: "publish", K: 0, V: &A, TTL: h, EOL: 1},
+			{Kind: "overlap", K: 0, V: &B, TTL: h, EOL: 2, V2: &A, TTL2: h, EOL2: 3},
+			{Kind: "resolve", P: n0(0), Depth: 32},
+			{Kind: "overlap", K: 0, V: &B, TTL: h, EOL: 5, V2: &viaN0, TTL2: h, EOL2: 4},
+		}},
+		{"overlapping publishes on a fresh name, explicit sequence equal to the one being written", config{Size: 8}, []op{
+			{Kind: "overlap", K: 1, V: &A, TTL: h, EOL: 1, V2: &B, TTL2: h, EOL2: 2},
+			{Kind: "overlap", K: 1, V: &A, TTL: h, EOL: 3, V2: &B, TTL2: h, EOL2: 4, Seq2: u64(2)},
+			{Kind: "overlap", K: 1, V: &A, TTL: h, EOL: 5, Seq: u64(1), V2: &B, TTL2: h, EOL2: 6},
+			{Kind: "restart"},
+			{Kind: "overlap", K: 1, V: &B, TTL: h, EOL: 7, V2: &A, TTL2: h, EOL2: 8, Seq2: u64(9)},
+		}},
 		{"explicit sequence numbers", config{Size: 0}, []op{
 			{Kind: "publish", K: 1, V: &A, TTL: 0, EOL: 1, Seq: u64(0)},
 			{Kind: "publish", K: 1, V: &A, TTL: 0, EOL: 2, Seq: u64(1)},
@@ -923,6 +1172,9 @@ func nontrivial(ops []op) bool {
 		switch o.Kind {
 		case "publish":
 			pubs++
+		case "overlap":
+			pubs += 2
+			res++
 		case "resolve":
 			if o.P.mutable() {
 				res++
@@ -1036,6 +1288,15 @@ func describe(w *world, ops []op) []string {
 			out = append(out, fmt.Sprintf("resolve %s depth=%d", w.str(*o.P), o.Depth))
 		case "sleep":
 			out = append(out, "sleep "+time.Duration(o.D).String())
+		case "overlap":
+			sq := func(x *uint64) string {
+				if x == nil {
+					return ""
+				}
+				return fmt.Sprintf(" seq=%d", *x)
+			}
+			out = append(out, fmt.Sprintf("overlapping: publish key%d -> %s ttl=%s eol=+%dh%s (parked in its datastore Put) || publish key%d -> %s ttl=%s eol=+%dh%s",
+				o.K, w.str(*o.V), time.Duration(o.TTL), o.EOL, sq(o.Seq), o.K, w.str(*o.V2), time.Duration(o.TTL2), o.EOL2, sq(o.Seq2)))
 		default:
 			out = append(out, "new name system over the same routing")
 		}
